@@ -9,6 +9,21 @@ COMMON_NOTE = ("Trusted: Coq 8.16.1 kernel; extraction with ExtrOcamlBasic only 
                "the radix-tree library, flock(2), goroutine scheduling. See DESIGN.md section 5.")
 
 CHECKS = {
+ 'C20': dict(text="Partial. Proved (Coq) on the segment-list model (Backup.v: every segment file of the source copied under its name into the "
+                  "target, files the source does not name left alone; a skipped copy has the same content): a backup into an empty "
+                  "directory, or repeated into a directory all of whose file names still exist in the source, is the source directory "
+                  "itself; Publish with or without rollover keeps every file name (so 'only appended to' gives that premise); the "
+                  "backup opens in every mode (hence passes Open with Check) to a handle with the same live messages and NextOffset as the "
+                  "source at the time of the call, and by the C03/C04/C09/C10 theorems answers queries alike; the call changes nothing "
+                  "in the source but lazily rebuilt index files. Not modelled: file copy mechanics (fsync, size+mtime skip rule, partial "
+                  "copies) - the skip rule is exercised only by the runs (incl. same-size rewrites within one mtime tick are out of the "
+                  "stated precondition). Tied to /repo by seeded histories with Backup into fresh and reused directories after appends "
+                  "(rollovers, reopen, both versions): the target's file listing, a full observation of the opened backup (Consume, Get, "
+                  "key/time lookups, Stat, NextOffset) and Check on every copied segment are compared with the source's observation at "
+                  "the time of the call, with the extracted model (backup_dir is extracted, not re-implemented in the driver), and the "
+                  "source's own observation before/after.",
+             ref='6/C20', technique='Coq proof (backup = source directory; reopen theorem) + differential correspondence',
+             note="The byte-copy mechanics (fsync, size/mtime skip) are not modelled. " + COMMON_NOTE),
  'C15': dict(text="Proof (Coq): a Hoare rule for the helpers' loop `for offset := OffsetOldest; offset < max && cond; Consume(offset, 32)` "
                   "that holds for every way Consume cuts the log into batches (built on: Consume returns no message only when nothing is "
                   "left); with it, on every state satisfying Inv: FindByOffset selects exactly the live offsets below the bound; FindByCount "
